@@ -70,7 +70,8 @@ type runner struct {
 	cf                             *vh.CaseFile
 	accepted, rejected, nonMinimal int
 	coqBytes, coqBudget            int
-	objects                        int
+	objects, txs                   int
+	txcf                           *vh.CaseFile
 }
 
 func sliceOf(data []byte, s blk.Span) []byte { return data[s.Off : s.Off+s.Len] }
@@ -296,6 +297,163 @@ func (r *runner) boundaryCorpus(fx []blk.Fixture) {
 	r.coqBudget = saved + (r.coqBytes - used)
 }
 
+// ---------------------------------------------------------------------------
+// standalone transactions (New<Era>TransactionFromCbor)
+
+type witCborer interface{ WitnessesCbor() []byte }
+
+// runTx decodes one standalone transaction item (optionally followed by trailing bytes)
+func (r *runner) runTx(label string, txType uint, exact bool, n int, root *vh.Item, trail []byte, toCoq bool) {
+	item := root.Enc()
+	data := append(append([]byte(nil), item...), trail...)
+	rc := rcase{100 + txType, label, vh.Hex(data)}
+	r.c.Begin(rc)
+	var tx ledger.Transaction
+	var err error
+	pan, pv := vh.Recover(func() { tx, err = ledger.NewTransactionFromCbor(txType, data) })
+	if pan {
+		r.c.Res.Violate("monitor", "panic:NewTransactionFromCbor", fmt.Sprint(pv), rc)
+		return
+	}
+	if err != nil {
+		r.rejected++
+		return
+	}
+	r.accepted++
+	r.txs++
+	nm := blk.NonMinimalContainers(root)
+	if nm > 0 {
+		r.nonMinimal++
+	}
+	cls := fmt.Sprintf("tx%d:", txType)
+	if nm > 0 {
+		cls += "reencoded"
+	} else {
+		cls += "minimal"
+	}
+	r.c.Res.Count(rc.Data, nm > 0, cls)
+	lay := blk.Layout(root)
+	r.stored("tx", tx, item, rc)
+	r.reserialise("tx", tx, item, rc)
+	bb := sliceOf(item, lay[root.Xs[0]])
+	wb := sliceOf(item, lay[root.Xs[1]])
+	body := field(tx, "Body")
+	r.stored("body", body, bb, rc)
+	var witStored []byte
+	if txType == 0 {
+		if wc, ok := tx.(witCborer); ok {
+			witStored = wc.WitnessesCbor()
+			if !bytes.Equal(witStored, wb) {
+				r.c.Res.Violate("monitor", "stored-bytes:witness-set:ByronTransaction", "WitnessesCbor() is not the input slice at its span", rc)
+			}
+		}
+	} else {
+		ws := field(tx, "WitnessSet")
+		r.stored("witness-set", ws, wb, rc)
+		if c, ok := ws.(cborer); ok {
+			witStored = c.Cbor()
+		}
+	}
+	if id := tx.Id(); !bytes.Equal(id.Bytes(), hash256(bb)) {
+		r.c.Res.Violate("monitor", "tx-id", "standalone tx: Id() is not Blake2b-256 of the body's wire bytes", rc)
+	}
+	if h := tx.Hash(); !bytes.Equal(h.Bytes(), hash256(bb)) {
+		r.c.Res.Violate("monitor", "tx-hash", "standalone tx: Hash() is not Blake2b-256 of the body's wire bytes", rc)
+	}
+	// outputs
+	var outs []*vh.Item
+	if txType == 0 {
+		if root.Xs[0].K == vh.KArr && len(root.Xs[0].Xs) >= 2 {
+			outs = root.Xs[0].Xs[1].Xs
+		}
+	} else if a := blk.MapGet(root.Xs[0], 1, false); a != nil {
+		outs = a.Xs
+	}
+	if os_ := tx.Outputs(); len(os_) == len(outs) {
+		for j, o := range os_ {
+			ob := sliceOf(item, lay[outs[j]])
+			r.stored("output", o, ob, rc)
+			r.reserialise("output", o, ob, rc)
+		}
+	}
+	if toCoq && r.coqBytes+len(data) <= r.coqBudget {
+		r.coqBytes += len(data)
+		var bs []byte
+		if c, ok := body.(cborer); ok {
+			bs = c.Cbor()
+		}
+		obs := fmt.Sprintf("(Some (%s, %s, %s))", vh.Bytes(tx.Cbor()), vh.Bytes(bs), vh.Bytes(witStored))
+		r.txcf.Add(fmt.Sprintf("(%s, %s, %s, %s)", vh.Bool(exact), vh.N(uint64(n)), vh.Bytes(data), obs), rc)
+	}
+}
+
+// txCorpus: standalone transactions cut from the fixtures (body, witness set, [is_valid], aux / null),
+// re-encoded under seeded forms, some followed by trailing bytes
+func (r *runner) txCorpus(fx []blk.Fixture, dijkstraTx []byte) {
+	saved, used := r.coqBudget, r.coqBytes
+	r.coqBudget = r.coqBytes + r.c.Pick(25_000, 250_000)
+	for _, f := range fx {
+		switch {
+		case f.Type == 1:
+			for i, pair := range f.Root.Xs[1].Xs[0].Xs {
+				for k := 0; k < r.c.Pick(6, 40); k++ {
+					t := pair.Clone()
+					if k > 0 {
+						t = vh.Reform(r.c.Rng, t, reformOpts[r.c.Rng.Intn(len(reformOpts))])
+					}
+					var trail []byte
+					if k%3 == 2 {
+						trail = []byte{0x01, 0xff}
+					}
+					r.runTx(fmt.Sprintf("byron:tx%d:%d", i, k), 0, true, 2, t, trail, k < 3)
+				}
+			}
+		case blk.IsShelleyLike(f.Root):
+			for k := 0; k < r.c.Pick(25, 300); k++ {
+				i := r.c.Rng.Intn(len(f.Root.Xs[1].Xs))
+				parts := []*vh.Item{f.Root.Xs[1].Xs[i].Clone(), f.Root.Xs[2].Xs[i].Clone()}
+				exact, n := false, 3
+				if f.Type >= 5 {
+					parts = append(parts, vh.BoolItem(true))
+					exact, n = true, 4
+				}
+				if aux := blk.MapGet(f.Root.Xs[3], uint64(i), true); aux != nil {
+					parts = append(parts, aux.Clone())
+				} else {
+					parts = append(parts, vh.Null())
+				}
+				t := vh.A(parts...)
+				if k%5 == 4 { // boundary-count outputs array inside a standalone tx
+					if arr := blk.WithOutputs(t.Xs[0], blk.BoundaryCounts[r.c.Rng.Intn(4)]); arr != nil {
+						blk.SetForm(arr, r.c.Rng.Intn(blk.NForms))
+					}
+				}
+				if k > 0 {
+					t = vh.Reform(r.c.Rng, t, reformOpts[r.c.Rng.Intn(len(reformOpts))])
+				}
+				if k%4 == 1 {
+					blk.SetForm(t, 1+r.c.Rng.Intn(3))
+				}
+				var trail []byte
+				if k%3 == 2 {
+					trail = []byte{0x01, 0xff}
+				}
+				r.runTx(fmt.Sprintf("%s:tx%d:%d", f.Name, i, k), f.Type-1, exact, n, t, trail, len(t.Enc()) < 1500)
+			}
+		}
+	}
+	if root, n, err := vh.ParseItem(dijkstraTx); err == nil && n == len(dijkstraTx) && root.K == vh.KArr && len(root.Xs) >= 2 {
+		for k := 0; k < r.c.Pick(4, 30); k++ {
+			t := root
+			if k > 0 {
+				t = vh.Reform(r.c.Rng, root, reformOpts[r.c.Rng.Intn(len(reformOpts))])
+			}
+			r.runTx(fmt.Sprintf("dijkstra:tx:%d", k), 7, true, len(root.Xs), t, nil, false)
+		}
+	}
+	r.coqBudget = saved + (r.coqBytes - used)
+}
+
 var reformOpts = []vh.ReformOpts{
 	{Containers: true, Indef: true, Prob: 30},
 	{Containers: true, Indef: true, Ints: true, Strings: true, Tags: true, Prob: 15},
@@ -311,11 +469,14 @@ func run(c *vh.Ctx) error {
 		"fxamacker hands UnmarshalCBOR exactly the item's bytes: a theorem for the model parser (Lib.parse_full_sound), checked for fxamacker by the stored-bytes monitor against an independent walker",
 		"Blake2b-256 is a Section variable in C01_hash_binds; the monitor recomputes it with golang.org/x/crypto",
 		"Byron and Dijkstra blocks: monitored (stored bytes, hashes, re-serialisation) but ExtractAndSetTransactionCbor is only modelled for the Shelley..Conway layout",
-		"standalone transactions (New<Era>TransactionFromCbor) are not exercised; block-derived Transaction.Cbor() is assembled, not wire bytes",
+		"block-derived Transaction.Cbor() is assembled (no wire range exists for a Shelley+ transaction inside a block) and is not compared; standalone transactions are (decode_tx models the accept case: era field decoding is abstract)",
 	}
 	r := &runner{c: c, coqBudget: c.Pick(90_000, 900_000)}
 	r.cf = c.NewCaseFile("c01", header)
 	r.cf.SetShardSize(c.Pick(14, 40))
+	r.txcf = c.NewCaseFile("c01tx", header)
+	r.txcf.Func, r.txcf.Type = "tx_mismatches", "txcase"
+	r.txcf.SetShardSize(c.Pick(40, 120))
 	if c.Replay != "" {
 		b, err := os.ReadFile(c.Replay)
 		if err != nil {
@@ -330,6 +491,16 @@ func run(c *vh.Ctx) error {
 		root, _, err := vh.ParseItem(vh.UnHex(rp.Replay.Data))
 		if err != nil {
 			return err
+		}
+		if rp.Replay.Type >= 100 { // a standalone transaction
+			item, n, _ := vh.ParseItem(vh.UnHex(rp.Replay.Data))
+			exact, cnt := rp.Replay.Type-100 >= 4 || rp.Replay.Type == 100, len(item.Xs)
+			if !exact {
+				cnt = 3
+			}
+			r.runTx(rp.Replay.Label, rp.Replay.Type-100, exact, cnt, item, vh.UnHex(rp.Replay.Data)[n:], true)
+			r.txcf.Flush()
+			return nil
 		}
 		r.runBlock(rp.Replay.Label, rp.Replay.Type, root, true)
 		r.cf.Flush()
@@ -346,6 +517,8 @@ func run(c *vh.Ctx) error {
 		r.runBlock(f.Name+":outer-9f", f.Type, w, f.Type == 3)
 	}
 	r.boundaryCorpus(fx)
+	dtx, _ := os.ReadFile(blk.Repo() + "/ledger/dijkstra/testdata/cardano_ledger_dijkstra_w30_tx.hex")
+	r.txCorpus(fx, vh.UnHex(strings.TrimSpace(string(dtx))))
 	for round := 0; round < c.Pick(3, 25); round++ {
 		for _, f := range fx {
 			o := reformOpts[c.Rng.Intn(len(reformOpts))]
@@ -366,12 +539,13 @@ func run(c *vh.Ctx) error {
 		r.runBlock(fmt.Sprintf("%s:small%v", f.Name, idx), f.Type, small, len(small.Enc()) < 4000)
 	}
 	r.cf.Flush()
+	r.txcf.Flush()
 	pct := 0
 	if r.accepted > 0 {
 		pct = 100 * r.nonMinimal / r.accepted
 	}
 	c.Res.Notes = append(c.Res.Notes,
-		fmt.Sprintf("accepted encodings %d (with >=1 non-minimal/indefinite container: %d = %d%%), rejected by the era decoder (not in the quantifier) %d; %d decoded objects compared", r.accepted, r.nonMinimal, pct, r.rejected, r.objects))
+		fmt.Sprintf("accepted encodings %d (with >=1 non-minimal/indefinite container: %d = %d%%), rejected by the era decoder (not in the quantifier) %d; %d decoded objects compared; %d standalone transactions", r.accepted, r.nonMinimal, pct, r.rejected, r.objects, r.txs))
 	if pct < 60 {
 		c.Res.Violate("correspondence", "generator-too-canonical", fmt.Sprintf("only %d%% of accepted cases have a non-minimal container", pct), nil)
 	}
